@@ -2301,6 +2301,9 @@ func c07(c *Ctx) {
 		g.emitSlog(c, comp, name, ops)
 	}
 	c07levels(c, r)
+	// large contexts (c07_big.go); after everything else: the older classes keep their seeds and case texts
+	c07directedBig(c)
+	c07bigSeeded(c, r)
 }
 
 func init() { registry["C07"] = c07 }
